@@ -488,7 +488,10 @@ def range_facts(loop: ast.For) -> list[tuple[ast.expr, bool]]:
         facts = [ast.Compare(left=lo, ops=[ast.LtE()], comparators=[name]), ast.Compare(left=name, ops=[ast.Lt()], comparators=[hi])]
     else:
         facts = [ast.Compare(left=name, ops=[ast.LtE()], comparators=[lo]), ast.Compare(left=hi, ops=[ast.Lt()], comparators=[name])]
-    return [(ast.fix_missing_locations(ast.copy_location(f, loop)), True) for f in facts]
+    out = [(ast.fix_missing_locations(ast.copy_location(f, loop)), True) for f in facts]
+    for f, _o in out:
+        f._synthetic = True  # type: ignore[attr-defined]  (not a test of the source: table generators skip it)
+    return out
 
 
 def _assigns_name(stmt: ast.AST, name: str) -> bool | None:
